@@ -138,15 +138,6 @@ Definition anchor_b (rn : list name) (f : fs) : bool :=
 Definition paths_ok_b (d : list dentry) : bool :=
   forallb (fun e => match d_path e with [] => false | _ => true end) d.
 
-(** The model's call trace as the hooks would see it (the quiet lstats are not hooked). *)
-Definition op_code (o : op) : option N :=
-  match o with
-  | OCreateDir => Some 0 | ORemoveDir => Some 1 | OCreateNew => Some 2 | OWrite => Some 3
-  | ORemoveFile => Some 4 | OSymlink => Some 5 | OLstat => Some 6 | OLstatQ => None
-  end%N.
-Definition visible_trace (tr : list event) : list (N * path) :=
-  flat_map (fun ev => match op_code (ev_op ev) with Some c => [(c, ev_path ev)] | None => [] end) tr.
-
 (** detail: 1 diff order, 2 result, 3 disk, 4 file states, 5 trace has an unsafe call,
     6 the recorded inputs do not satisfy the hypotheses of the theorems, 7 a primitive call
     behaved differently on the real disk, 8 the real sequence of file-system calls differs
